@@ -263,7 +263,7 @@ class Outcome:
 
 
 _frame_ids = itertools.count(1)
-_heap_ids = itertools.count(1)
+_heap_ids = itertools.count(1000000)    # harness-chosen heap ids are small
 _fresh = itertools.count(1)
 
 
@@ -324,19 +324,34 @@ class Interp:
         while '{' not in hdr and k < len(lines):
             hdr += ' ' + lines[k].strip(); k += 1
         hdr = hdr.split('{')[0]
-        m = re.match(r'^impl\s*(<.*?>)?\s*(.*)$', hdr.strip())
-        if not m:
+        h2 = hdr.strip()
+        if not h2.startswith('impl'):
             return (None, None)
-        body = m.group(2)
+        h2 = h2[4:].lstrip()
+        if h2.startswith('<'):
+            depth = 0
+            for k, ch in enumerate(h2):
+                if ch == '<':
+                    depth += 1
+                elif ch == '>' and h2[k - 1] not in '-=':
+                    depth -= 1
+                    if depth == 0:
+                        h2 = h2[k + 1:]
+                        break
+        body = h2.strip()
         # strip where clause
         body = re.split(r'\bwhere\b', body)[0].strip()
         if ' for ' in body:
             trait, ty = body.split(' for ', 1)
             trait = strip_generics(trait.strip())
+            self.impl_params[(path, line, col)] = type_args(ty.strip())
             return (strip_generics(ty.strip()), trait.split('::')[-1])
+        self.impl_params[(path, line, col)] = type_args(body.strip())
         return (strip_generics(body.strip()), None)
 
     def _build_index(self):
+        self.impl_params = {}
+        self.fn_impl = {}         # fn name -> (path, line, col) of its impl block
         self.by_key = {}          # (type, method) -> [fn name]
         self.by_free = {}         # free fn name -> fn name
         self.closures = {}        # '{closure@...}' -> fn name
@@ -363,6 +378,7 @@ class Interp:
                     self.by_free.setdefault(parts[-1], []).append(name)
                     continue
                 sty, tr = self._impl_info(path, int(line), int(col))
+                self.fn_impl[name] = (path, int(line), int(col))
                 self.by_key.setdefault((sty, rest), []).append((name, tr, mod))
                 continue
             if re.match(r'^[\w:]+$', name):
@@ -416,7 +432,7 @@ class Interp:
             if filt:
                 inherent = filt
         if len(inherent) == 1:
-            return inherent[0][0], {}
+            return inherent[0][0], self._bind_type_args(c, inherent[0][0], generics)
         if len(inherent) > 1:
             # prefer the non-"alternative" module unless qualified
             pref = [x for x in inherent if x[2] and 'alternative' not in x[2]]
@@ -428,6 +444,31 @@ class Interp:
             if len(lst) == 1:
                 return lst[0], {}
         return None, None
+
+    def _bind_type_args(self, callee, fname, generics):
+        """`Type::<A, B>::method` -> bind the impl's type parameters positionally"""
+        m = re.match(r'^(?:[\w:]*?::)?(\w+)::<(.*)>::(\w+)(?:::<.*>)?$', callee.strip())
+        if not m:
+            return {}
+        key = self.fn_impl.get(fname)
+        params = self.impl_params.get(key, []) if key else []
+        args = M.split_top(m.group(2))
+        # the turbofish may itself be nested: take only the segment right after the type name
+        depth = 0
+        txt = callee.strip()
+        i0 = txt.find(m.group(1) + '::<') + len(m.group(1)) + 3
+        j = i0
+        depth = 1
+        while j < len(txt) and depth:
+            if txt[j] == '<': depth += 1
+            elif txt[j] == '>' and txt[j - 1] not in '-=': depth -= 1
+            j += 1
+        args = M.split_top(txt[i0:j - 1])
+        out = {}
+        for p_, a_ in zip(params, args):
+            a_ = a_.strip()
+            out[p_] = generics.get(a_, strip_generics(a_).split('::')[-1])
+        return out
 
     # ------------------------------------------------------------------ memory
     def read_base(self, st, base):
@@ -568,6 +609,8 @@ class Interp:
             return Fraction(m.group(1))
         if t.startswith('"') or t.startswith('b"'):
             return Opaque('str')
+        if t == '()':
+            return UNIT
         m = re.match(r'^.*: (?:usize|u\d+|i\d+|isize) = const (-?\d+)_\w+$', t)
         if m:
             return int(m.group(1))
@@ -596,6 +639,11 @@ class Interp:
             return Agg('DVec4', (v, v, v, v))
         if t.endswith('HalfSpace::EPSILON'):
             return self.named_const('HalfSpace::EPSILON')
+        m = re.fullmatch(r'(?:core|std)::f64::<impl f64>::(\w+)', t) or re.fullmatch(r'f64::(\w+)', t)
+        if m:
+            tab = {'EPSILON': Fraction(1, 2 ** 52), 'MIN_POSITIVE': Fraction(1, 2 ** 1022), 'MAX': Fraction((2 ** 53 - 1) * 2 ** 971)}
+            if m.group(1) in tab:
+                return tab[m.group(1)]
         if t in self.consts:
             return self.consts[t]
         raise Unsupported('const %s' % t)
@@ -982,6 +1030,14 @@ def strip_turbofish(s):
             continue
         out.append(s[i]); i += 1
     return ''.join(out)
+
+
+def type_args(ty):
+    """FaceIntegrator<I> -> ['I'];  ConvexCell<M> -> ['M']; Plane -> []"""
+    m = re.match(r'^[\w:]+<(.*)>$', ty.strip())
+    if not m:
+        return []
+    return [a.strip() for a in M.split_top(m.group(1))]
 
 
 def strip_generics(s):
